@@ -12,29 +12,29 @@ TEXT = {
   "level_note": "Trusts the in-memory transport and rapid. Interleavings inside pack/unpack are sampled by load, not forced.",
  },
  "C11": {
-  "technique": "property-based round-trip with aliasing probe + garbage/other-shape decoding between canaries (rapid)",
-  "level_text": "Per codec, typed values from the supported domain are marshalled and unmarshalled (deep equality incl. element order; nil/empty identified; NaN by class), the decoder's input buffer is then overwritten to expose values that alias it, and arbitrary / mutated / other-shape inputs are decoded into every destination type between canary words with panics turned into failures.",
+  "technique": "property-based round-trip with aliasing probes + garbage/other-shape decoding between canaries (rapid) + coverage-guided native fuzzing (thorough)",
+  "level_text": "Per codec, typed values from the supported domain are marshalled and unmarshalled (deep equality incl. element order; nil/empty identified; NaN by class), the decoder's input buffer is then overwritten to expose values that alias it, and arbitrary / mutated / other-shape inputs are decoded into every destination type between canary words with panics turned into failures; an encoding returned by Marshal is compared with itself after further Marshal calls of other values. Thorough tier: coverage-guided native fuzzing of Unmarshal per codec with the canary oracle inside the target.",
   "level_note": "Value domains are bounded by what encoding/json, encoding/xml, gogo/protobuf and thrift accept; struct shapes are a fixed library of types, not arbitrary reflect.StructOf types.",
  },
  "C12": {
   "technique": "property-based inversion over generated pipes/payloads + exhaustive single-byte corruption enumeration (rapid + enumeration)",
-  "level_text": "Pipes over the registered filters (length 0..255, repeats) x payload classes are packed and unpacked (exact inversion; receiver rebuilds the pipe from a raw frame); pipes naming an unregistered id must be refused by Append and by Unpack; for pipes containing md5 every byte position of the packed payload is corrupted (3 masks quick; all 255 masks for payloads <=64 B in the thorough tier, a complete enumeration for those payloads). The end-to-end 'reply travels through the caller's pipe' part is checked with sessions in the same run group.",
+  "level_text": "Pipes over the registered filters (length 0..255, repeats) x payload classes are packed and unpacked (exact inversion; receiver rebuilds the pipe from a raw frame); pipes naming an unregistered id must be refused by Append and by Unpack; one pipe object is driven through Reset/Append/AppendFrom steps (as pooled messages do) with every view (IDs, Len, Names, Range) and cross-inversion against a fresh pipe checked after each step; for pipes containing md5 every byte position of the packed payload is corrupted (3 masks quick; all 255 masks for payloads <=64 B in the thorough tier, a complete enumeration for those payloads). The end-to-end 'reply travels through the caller's pipe' part is checked with sessions in the same run group.",
   "level_note": "compress/gzip and crypto/md5 are trusted; corruption model = one byte xor-ed.",
  },
  "C02": {
-  "technique": "property-based fault/event scripts against a scripted remote (rapid) + exhaustive cut-offset enumeration",
-  "level_text": "A real client session with 1-5 outstanding calls faces a scripted remote whose event script is generated: per-call reply classes (valid, error, duplicate, unknown seq, codec 0 with body, undecodable, truncated) with reply-path vetoes, interleaved with local Close, remote close, cut, over-limit garbage. Oracle: every call's Done fires after its terminal event (20 s bound + goroutine dump), exactly one completion-channel delivery, never OK without a reply, Close returns; a process crash is reported from the journalled case. In addition the connection is cut at EVERY byte offset of the request and reply streams of a fixed two-call scenario per protocol (complete over that finite space).",
+  "technique": "property-based fault/event scripts against a scripted remote, incl. harness-gated pre-write hooks and calls issued from handlers (rapid) + exhaustive cut-offset enumeration",
+  "level_text": "A real client session with 1-5 outstanding calls faces a scripted remote whose event script is generated: per-call reply classes (valid, error, duplicate, unknown seq, codec 0 with body, undecodable, truncated) with reply-path vetoes, interleaved with local Close, remote close, cut, over-limit garbage. Oracle: every call's Done fires after its terminal event (20 s bound + goroutine dump), exactly one completion-channel delivery, never OK without a reply, Close returns; a process crash is reported from the journalled case. In addition the connection is cut at EVERY byte offset of the request and reply streams of a fixed two-call scenario per protocol (complete over that finite space). Two further generated sub-checks: the send window (calls parked inside a harness-controlled PreWriteCall hook while the link is cut / closed / an early REPLY with their sequence number arrives, then passed or vetoed) and nested calls (handlers that call back over their own session and wait, then the connection is lost).",
   "level_note": "Liveness is bounded-time evidence. Orderings are those generated (script order + settle pauses); no gate inside the framework is used in this check.",
  },
  "C03": {
   "technique": "property-based frame sequences from a scripted raw peer against a reference model of dispatch (rapid)",
-  "level_text": "A scripted raw peer sends generated frame sequences (any type byte, known/unknown/empty/255-byte routes, decodable/undecodable/empty bodies, registered/unregistered/nil codec ids, pre-handler plugin vetoes, duplicate/extreme seqs; handler returns, fails, panics with string/error/*Status, is gated, or returns an unmarshalable reply) to a real server session, pipelined or frame by frame under generated read chunkings. A model decides expected REPLY count per seq, handler invocations per request id, reply status code and whether the session must disconnect; a graceful Close is the final barrier so counts are taken at quiescence.",
+  "level_text": "A scripted raw peer sends generated frame sequences (any type byte, known/unknown/empty/255-byte routes, decodable/undecodable/empty bodies, registered/unregistered/nil codec ids, pre-handler plugin vetoes, duplicate/extreme seqs; handler returns, fails, panics with string/error/*Status, is gated, returns an unmarshalable reply or a result larger than a configured message size limit; plugins panicking before the handler, before and after the reply write) to a real server session, pipelined or frame by frame under generated read chunkings. A model decides expected REPLY count per seq, handler invocations per request id, reply status code and whether the session must disconnect; a graceful Close is the final barrier so counts are taken at quiescence.",
   "level_note": "Write faults during the reply are not injected. Concurrency is whatever pipelining + the pool scheduler produce.",
  },
  "C04": {
   "technique": "property-based cause x protocol x codec matrix against a model of the expected status triple (rapid)",
-  "level_text": "One call per case over raw/json/pb/http and the two websocket sub-protocols (real HTTP upgrade over the in-memory transport), body codecs json/xml/form: the cause of the outcome is generated (handler OK/any status, 404, 400, panic, server veto per stage, caller veto before write and per reply stage, cut while the handler runs, result-type mismatch) and the observed (code,msg,cause) at accessor level is compared with a small model; whether a mismatching result type must fail is decided by the codec alone.",
-  "level_note": "protobuf/thrift body codecs are covered by C01/C11, not by this matrix; thrift wire protocols are covered in the thrift binary for round-trip only.",
+  "level_text": "One call per case over raw/json/pb/http and the two websocket sub-protocols (real HTTP upgrade over the in-memory transport), body codecs json/xml/form: the cause of the outcome is generated (handler OK/any status, 404, 400, panic, server veto per stage, caller veto before write and per reply stage, cut while the handler runs, result-type mismatch) and the observed (code,msg,cause) at accessor level is compared with a small model; whether a mismatching result type must fail is decided by the codec alone. Every status is re-checked after follow-up calls on the same and on other sessions. Over the two thrift wire protocols (separate binary) sequential histories of 2-10 operations (OK, handler status, unknown route, failing pushes; either direction; thrift and json bodies) must each show exactly their own outcome.",
+  "level_note": "protobuf/thrift body codecs are covered by C01/C11, not by this matrix; thrift wire protocols are covered by the status-history sub-check and the round-trip checks of the thrift binary, not by the cause matrix.",
  },
  "C09": {
   "technique": "property-based plugin arrangements against a reference model of the hook trace (rapid)",
@@ -43,17 +43,17 @@ TEXT = {
  },
  "C10": {
   "technique": "property-based router programs over a handler library + mapper function properties (rapid)",
-  "level_text": "Router programs (mapper x SubRoute tree x registrations from a library of 9 controller structs / 11 functions with the documented identifier shapes and deliberate collisions x unknown handlers) are built on a real peer; every returned name, its twin in the other namespace, near-misses and random names are requested and the set of handlers that ran is compared with the model after every request and at quiescence; predicted collisions must be reported. The mapper is checked literally against the documented table, against word-template instances of it, and for determinism/totality on arbitrary identifier strings.",
+  "level_text": "Router programs (mapper x SubRoute tree x registrations from a library of 9 controller structs / 11 functions with the documented identifier shapes and deliberate collisions x unknown handlers x requesting session established before or after the configuration) are built on a real peer; every returned name, its twin in the other namespace, near-misses and random names are requested and the set of handlers that ran is compared with the model after every request and at quiescence; predicted collisions must be reported. The mapper is checked literally against the documented table, against word-template instances of it, and for determinism/totality on arbitrary identifier strings.",
   "level_note": "Expected names use the public mapper functions; handler programs are limited to the library.",
  },
  "C20": {
   "technique": "property-based differential testing: recycled object vs fresh object under generated op histories (rapid)",
-  "level_text": "For messages, metadata containers and pooled sockets a generated dirtying history is followed by the documented recycle path and a generated next-user history that is applied to the recycled and to a fresh object; every public getter and the packed bytes must agree after every step. For handler contexts (black box) generated dirty requests (reply metadata, codec, pipe, swap entries, error status, large bodies, pushes in both directions) precede a probe request whose handler records everything it can observe and whose reply frame is captured from the wire.",
+  "level_text": "For messages, metadata containers and pooled sockets a generated dirtying history is followed by the documented recycle path and a generated next-user history that is applied to the recycled and to a fresh object; every public getter and the packed bytes must agree after every step. For handler contexts (black box) generated dirty requests (reply metadata, codec, pipe, swap entries, error status, large bodies, a context.Context with a value / deadline attached by the caller, a session with a context age, pushes in both directions; half the cases on a single P so that pooled objects are reused at once) precede a probe request whose handler records everything it can observe and whose reply frame is captured from the wire.",
   "level_note": "Pool identity is not guaranteed by sync.Pool; reuse is measured and reported, and the reset functions are also driven directly.",
  },
  "C06": {
-  "technique": "property-based hostile byte strings at protocol and live-session level (rapid) + exhaustive truncation-offset enumeration",
-  "level_text": "Protocol level: random / mutated / truncated / length-boundary / inner-length / spliced / duplicated / bare-announcement byte strings are fed to each protocol's Unpack under read limits 64..65536 with the allocation around the call measured and, for size-prefixed protocols, the bytes consumed after an over-limit announcement counted; HTTP gets text-level announcements (Content-Length, endless lines, header floods). Every proper prefix of six fixed valid frames per protocol is enumerated (complete). Session level: a live serving or calling session (with pending calls) of a real peer receives generated hostile chunks then EOF; the close notification must fire, pending calls complete exactly once, Close returns, the index forgets the session and a control session on the same peer works before, during and after; a process crash is reported from the journalled case.",
+  "technique": "property-based hostile byte strings at protocol, body-codec and live-session level (rapid) + exhaustive truncation-offset enumeration + coverage-guided native fuzzing (thorough)",
+  "level_text": "Protocol level: random / mutated / truncated / length-boundary / inner-length / spliced / duplicated / bare-announcement byte strings are fed to each protocol's Unpack under read limits 64..65536 with the allocation around the call measured and, for size-prefixed protocols, the bytes consumed after an over-limit announcement counted; HTTP gets text-level announcements (Content-Length, endless lines, header floods). Every proper prefix of six fixed valid frames per protocol is enumerated (complete). Session level: a live serving or calling session (with pending calls) of a real peer receives generated hostile chunks then EOF; the close notification must fire, pending calls complete exactly once, Close returns, the index forgets the session and a control session on the same peer works before, during and after; a process crash is reported from the journalled case. Body-codec level: a body derived from a valid encoding with a length-like 4-byte window overwritten by 2^26..2^31-1 (big/little endian, varint) is decoded by every built-in codec under the same allocation bound. Thorough tier: coverage-guided native fuzzing (go test -fuzz, instrumented build) of Unpack for raw/json/pb/http with the same oracles inside the target.",
   "level_note": "TotalAlloc is a coarse, over-approximating monitor with deliberately wide slack. Thrift: element lengths inside a frame are decoded by the third-party thrift library, which allocates what is announced (listed known finding); the allocation oracle is suspended for the thrift protocols while that finding is listed, and inner-length corruption classes are steered away and counted.",
  },
  "C07": {
@@ -63,22 +63,22 @@ TEXT = {
  },
  "C08": {
   "technique": "property-based schedules over gated handlers, judged on a logical-clock history and wire capture (rapid)",
-  "level_text": "Calls in both directions are parked inside gated handlers (all entered), then Close (session or peer, either end) is invoked, optional late calls are issued, handlers are released in a generated permutation with an optional cut; the oracle reads the logical-clock log and the captured wire: Close blocked while entered handlers run / own calls are unanswered, genuine replies (never 102) for entered handlers unless the connection was cut first, Close returns after handler exits and after their REPLY frames are on the wire.",
+  "level_text": "After a generated prior history on the closing side's session (completed calls, pushes, calls that failed locally because their argument cannot be marshalled or their context is cancelled), calls in both directions are parked inside gated handlers (all entered), then Close (session or peer, either end) is invoked, optional late calls are issued, handlers are released in a generated permutation with an optional cut; the oracle reads the logical-clock log and the captured wire: Close blocked while entered handlers run / own calls are unanswered, genuine replies (never 102) for entered handlers unless the connection was cut first, Close returns after handler exits and after their REPLY frames are on the wire.",
   "level_note": "The placement of Close relative to handler entry is controlled (always after entry); 'request arrived but handler not entered' is only exercised by the late calls and judged for exactly-once completion.",
  },
  "C15": {
   "technique": "property-based histories with a before/after snapshot invariant and a differential battery (rapid)",
-  "level_text": "Generated histories of failures and plugin activity (closed-session calls/pushes, 404, 400, panics, unsupported frame types, PreSend outside its phase, refused dials, cuts mid-call, proxied calls/pushes with the backend down or dying, auth rejection, secure with a wrong key, overloader rejection); after every step the (code,msg,cause) of every predefined status is compared with the snapshot taken before the history, and a fixed battery of failing operations on fresh sessions must yield the same triples before and after.",
+  "level_text": "Generated histories of failures and plugin activity (closed-session calls/pushes, 404, 400, panics, unsupported frame types, PreSend outside its phase, refused dials, cuts / truncated or garbage replies / read deadlines mid-call, error replies that cannot be written because the reply context expired, proxied calls/pushes with the backend down or dying, auth rejection, secure with a wrong key, overloader rejection); after every step the (code,msg,cause) of every predefined status is compared with the snapshot taken before the history, and a fixed battery of failing operations on fresh sessions must yield the same triples before and after.",
   "level_note": "Relies on the verif accessor H2 for the list of shared statuses.",
  },
  "C16": {
   "technique": "property-based first-bytes / pipelining scripts against the auth checker with handler and hook counters (rapid)",
-  "level_text": "A raw client opens a connection to a peer running the auth checker (verdict by credentials, reject after SetID, panic) with any first frame (good/bad AUTH_CALL, CALL, PUSH, REPLY, AUTH_REPLY, unknown type, garbage, half an auth frame, nothing, CALL before auth) and CALL/PUSH frames pipelined behind it, under generated write splitting and read chunking; without a successful exchange no handler and no per-message hook runs, at most one AUTH_REPLY is sent before EOF, nothing is indexed; with one, pipelined CALLs are answered exactly once. The dialling side (bearer plugin) is checked against a scripted TCP server with the same oracle.",
+  "level_text": "A raw client opens a connection to a peer running the auth checker (verdict by credentials, a second receive attempt on bad credentials, reject after SetID, panic) with any first frame (good/bad AUTH_CALL, CALL, PUSH, REPLY, AUTH_REPLY, unknown type, garbage, half an auth frame, nothing, CALL before auth) and CALL/PUSH frames pipelined behind it, under generated write splitting and read chunking; without a successful exchange no handler and no per-message hook runs, at most one AUTH_REPLY is sent before EOF, nothing is indexed; with one, pipelined CALLs are answered exactly once. The dialling side (bearer plugin) is checked against a scripted TCP server with the same oracle.",
   "level_note": "Timing of client traffic relative to the exchange is generated through write splitting and read chunking, not through in-framework gates.",
  },
  "C17": {
   "technique": "property-based marker/key/codec matrix with wire capture (rapid)",
-  "level_text": "Calls and pushes between two peers running the secure plugin over the full matrix of secure / accept-secure markers, codecs json and protobuf, key lengths and equal/different keys, with random 24-character markers in argument and result; end-to-end equality with equal keys, handler-not-invoked / result-not-delivered with the plugin's status code with different keys, and a scan of both captured byte streams for the markers (raw, hex, base64) deciding encrypted-vs-clear per frame.",
+  "level_text": "Calls and pushes between two peers running the secure plugin over the full matrix of secure / accept-secure markers, codecs json and protobuf, key lengths and equal/different keys, with random 24-character markers (or empty ones: zero-byte protobuf bodies) in argument and result; end-to-end equality with equal keys, handler-not-invoked / result-not-delivered with the plugin's status code with different keys, and a scan of both captured byte streams for the markers (raw, hex, base64) deciding encrypted-vs-clear per frame.",
   "level_note": "Only the shipped codecs able to carry the envelope (json, protobuf).",
  },
  "C18": {
@@ -92,13 +92,13 @@ TEXT = {
   "level_note": "Backend statuses avoid the framework-reserved range 100-199.",
  },
  "C14": {
-  "technique": "property-based generation of concurrent programs with the Go race detector as the monitor (rapid + -race)",
-  "level_text": "Generated concurrent programs (2-10 goroutines x 1-12 documented-safe operations on 1-2 shared sessions: Call, AsyncCall, Push in both directions, handler replies, SetID, swap store/load/range, age getters, Health, CloseNotify, GetSession, RangeSession, CountSession, Close) run in a binary built with -race, once with logging off and once with run-logging at INFO; the driver parses every detector report and reports a violation for each unordered pair of framework functions not listed as a known finding.",
+  "technique": "property-based generation of concurrent programs + exhaustive pairwise contention sweep, with the Go race detector as the monitor (rapid + enumeration + -race)",
+  "level_text": "Generated concurrent programs (2-10 goroutines x 1-12 documented-safe operations on 1-2 shared sessions: Call, AsyncCall, Push in both directions, handler replies, SetID, swap store/load/range, age getters, Health, CloseNotify, GetSession, RangeSession, CountSession, Close) run in a binary built with -race, once with logging off and once with run-logging at INFO; two programs in five are contention bursts (2-4 goroutines repeating 1-3 operation kinds 40..3000 times), and a systematic sweep lets every unordered pair of operation kinds (a kind with itself included) meet on one session with 2+2 goroutines and 3000 rounds (30000 in the thorough tier); the driver parses every detector report and reports a violation for each unordered pair of framework functions not listed as a known finding.",
   "level_note": "Only executed interleavings are observed. The harness itself must be race-free: reports touching harness frames or non-concurrency-safe global setters are infrastructure errors, not findings.",
  },
  "C13": {
   "technique": "property-based fault sequences against a harness-owned listener over loopback TCP (rapid)",
-  "level_text": "A client session created by Dial with redial budget 1/3/unlimited faces a harness-owned listener that can kill every accepted connection and refuse new ones; generated fault sequences (killed idle, killed while a call awaits its gated reply, calls and pushes issued while the server is away, short outage, budget-exhausting outage, long outage with unlimited budget, concurrent call bursts), optionally with the secure plugin on both peers; in-flight calls complete with a connection-class status or their genuine reply, after re-establishment calls succeed on the same Session value with the user-assigned id kept and indexed, after exhaustion the close notification fires, the index forgets the session and pending/later calls fail with a connection error.",
+  "level_text": "A client session created by Dial with redial budget 1/3/unlimited faces a harness-owned listener that can kill every accepted connection and refuse new ones; generated fault sequences (killed idle, killed while a call awaits its gated reply, calls and pushes issued while the server is away, short outage, budget-exhausting outage, a dial hook refusing every redial attempt, long outage with unlimited budget, concurrent call bursts), optionally with the secure plugin on both peers; in-flight calls complete with a connection-class status or their genuine reply, after re-establishment calls succeed on the same Session value with the user-assigned id kept and indexed, after exhaustion the close notification fires, the index forgets the session and pending/later calls fail with a connection error (calls on ended sessions run under a liveness bound so a deadlock is a verdict); pre-write hooks fire once per message even when it is re-sent after a redial.",
   "level_note": "Real sockets: timing is not owned by the harness; liveness is bounded-time evidence.",
  },
 }
